@@ -33,7 +33,7 @@ MIN_REACH = {
     "sweeps_following_an_equal_valued_sweep": {"quick": 10, "thorough": 120},
     "grids_over_512_settings_through_executors": {"quick": 2, "thorough": 3},
     "grids_over_2000_settings": {"quick": 4, "thorough": 4},
-    "grids_given_as_mappings_that_are_not_dicts": {"quick": 25, "thorough": 400},
+    "grids_given_as_mappings_that_are_not_dicts": {"quick": 18, "thorough": 400},
     "calls_logged": {"quick": 3000, "thorough": 200000},
     "distinct_completion_orders": {"quick": 40, "thorough": 700},
     "real_pool_cases": {"quick": 8, "thorough": 100},
